@@ -21,13 +21,16 @@ def gen(rng):
             "work": [rng.choice(["quick", "fail", "block", "quick"]) for _ in range(rng.randint(0, 4))],
             "wait": rng.random() < 0.7, "kwargs": rng.choice([{}, {}, {"cancel_futures": True}, {"cancel_futures": False}]),
             "racers": rng.randint(0, 2), "second_shutdown": rng.random() < 0.5, "shutdown_delay": rng.choice([0, 0, 1, 3]),
-            "poll_resolves": rng.random() < 0.6, "co_shutters": rng.choice([0, 0, 0, 1, 2])}
+            "poll_resolves": rng.random() < 0.6, "co_shutters": rng.choice([0, 0, 0, 1, 2]),
+            # "further shutdown() calls are harmless" - also when they come from user code running on one of the executors' own
+            # worker threads (a poll function that is in mid-poll when shutdown(wait=False) returns shuts every layer down again)
+            "again": rng.random() < 0.3}
 
 
 def execute(p, chooser):
     from more_executors import Executors
     from more_executors.futures import f_return
-    obs = {"params": p, "rec": [], "racers": [], "after": None, "alive_at_return": None, "second": None, "returned": False, "after_other": []}
+    obs = {"params": p, "rec": [], "rec_again": [], "again_exc": [], "racers": [], "after": None, "alive_at_return": None, "second": None, "returned": False, "after_other": []}
 
     def main():
         det.emit("case", None, repr(p))
@@ -43,6 +46,18 @@ def execute(p, chooser):
                     ex = ex.with_flat_map(lambda v: f_return(v))
                 elif k == "poll":
                     def poll_fn(ds):
+                        if p.get("again") and not p["wait"] and obs.get("shutdown_started") and not obs.get("again_done"):
+                            det.wait_until(lambda: obs["returned"])
+                            obs["again_done"] = True
+                            obs["in_again"] = True
+                            for (k2, o2) in objs:
+                                try:
+                                    o2.shutdown(True)
+                                except BaseException as e:
+                                    if isinstance(e, det.Abort):
+                                        raise
+                                    obs["again_exc"].append((k2, type(e).__name__, str(e)))
+                            obs["in_again"] = False
                         if p["poll_resolves"] or gate["open"]:
                             for d in ds:
                                 d.yield_result(d.result)
@@ -59,6 +74,9 @@ def execute(p, chooser):
             for idx, (k, o) in enumerate(objs):
                 def wrap(o=o, idx=idx, orig=o.shutdown):
                     def sd(*a, **kw):
+                        if obs.get("in_again"):
+                            obs["rec_again"].append((idx, a, tuple(sorted(kw.items()))))
+                            return orig(*a, **kw)
                         obs["rec"].append((idx, a, tuple(sorted(kw.items()))))
                         return orig(*a, **kw)
                     return sd
@@ -101,6 +119,7 @@ def execute(p, chooser):
         def shutter():
             if p["shutdown_delay"]:
                 det.sleep(p["shutdown_delay"])
+            obs["shutdown_started"] = True
             top.shutdown(p["wait"], **p["kwargs"])
             with det.atomic():
                 obs["returned"] = True
@@ -193,6 +212,12 @@ def monitor(r, obs):
         out.append({"what": "worker threads still alive when shutdown(wait=True) returned: %s" % obs["alive_at_return"], "detail": str(p), "pattern": "shutdown:not-joined"})
     if p["wait"] and p.get("co_shutters") and obs.get("alive_at_all_returned"):
         out.append({"what": "worker threads still alive after every concurrent shutdown(wait=True) returned: %s" % obs["alive_at_all_returned"], "detail": str(p), "pattern": "shutdown:not-joined"})
+    for (k2, en, msg) in obs.get("again_exc", []):
+        out.append({"what": "a repeated shutdown() of the %s layer, called from a worker thread after shutdown() had returned, raised %s: %s" % (k2, en, msg),
+                    "detail": str(p), "pattern": "shutdown:repeat-raised"})
+    if obs.get("again_done") and not obs.get("again_exc") and len(obs.get("rec_again", [])) != len(p["layers"]) + 1:
+        out.append({"what": "repeated shutdown() calls on all %d executors led to %d calls in total (propagated again)" % (len(p["layers"]) + 1, len(obs["rec_again"])),
+                    "detail": str(p), "pattern": "shutdown:not-idempotent"})
     if obs.get("flags") and not all(f in (True, None) for f in obs["flags"]):
         out.append({"what": "not every layer is marked shut down: %s" % obs["flags"], "detail": str(p), "pattern": "shutdown:flag"})
     return out
